@@ -148,7 +148,9 @@ pub fn build(start: &Start) -> Document {
             page_no += 1;
             let mut page = dictionary! { "Type" => "Page", "Parent" => gid };
             let mk_content = |b: &mut Builder, k: usize| -> ObjectId {
-                let ops = sample_ops(page_no * 10 + k);
+                let predictor = spec.compressed && spec.annots % 2 == 1;
+                // long enough for compress() to keep its result (it must save more than a few bytes)
+                let ops: Vec<Operation> = if predictor { (0..6).flat_map(|r| sample_ops(page_no * 10 + k + r * 100)).collect() } else { sample_ops(page_no * 10 + k) };
                 let bytes = if spec.encoded_by_lopdf {
                     Content { operations: ops }.encode().unwrap()
                 } else {
@@ -156,6 +158,20 @@ pub fn build(start: &Start) -> Document {
                     v.push(b'\n');
                     v
                 };
+                if predictor {
+                    // as many producers write content streams: Flate with a PNG predictor (parameters that must go when
+                    // the filter goes, and must not come back when the stream is compressed again)
+                    let mut padded = bytes.clone();
+                    while padded.len() % 8 != 0 {
+                        padded.push(b'\n');
+                    }
+                    let predicted = crate::refimpl::filt::png::encode(&padded, 1, 8, 8, &[2, 1, 0, 4, 3]);
+                    let mut z = flate2::write::ZlibEncoder::new(Vec::new(), flate2::Compression::default());
+                    use std::io::Write as _;
+                    z.write_all(&predicted).unwrap();
+                    let data = z.finish().unwrap();
+                    return b.add_stream(dictionary! { "Filter" => "FlateDecode", "DecodeParms" => dictionary! { "Predictor" => 15, "Columns" => 8 } }, data, false);
+                }
                 b.add_stream(dictionary! {}, bytes, spec.compressed)
             };
             match spec.contents % 4 {
